@@ -1149,7 +1149,44 @@ def _apply_family_variant(name, m):
         return rewriter.rewrite(m, bias_gelu_rules)
     if name == "rewrite_custom_domain":
         return rewriter.rewrite(m, _custom_domain_rules())
+    if name.startswith("after_primer:"):
+        # history: another model (the same operators at ANOTHER opset version, where their attributes / inputs differ) goes
+        # through the same entry point first, in this process; the result for m must be what it is without that history
+        import onnx
+
+        inner = name.split(":", 1)[1]
+        primer = axes_model(int(m.graph.name.rsplit("_", 1)[1]), "primer")     # graph name: axes_<opset>_after_<primer opset>
+        apply_variant(inner, primer)
+        return apply_variant(inner, m)
     return apply_variant(name, m)
+
+
+def axes_model(ops_v, gname):
+    import onnx
+    from onnx import TensorProto as T
+    from onnx import helper as h
+    from onnx import numpy_helper as nh
+
+    attr_form = ops_v < 13
+    cst = nh.from_array(np.arange(6, dtype=np.float32).reshape(1, 3, 2, 1) - 2.0, "k")
+    inits = [cst]
+    nodes = []
+    if attr_form:
+        nodes.append(h.make_node("Squeeze", ["k"], ["ks"], axes=[0]))                      # (3, 2, 1)
+        nodes.append(h.make_node("ReduceSum", ["ks"], ["kr"], axes=[1], keepdims=0))       # (3, 1)
+        nodes.append(h.make_node("Unsqueeze", ["kr"], ["ku"], axes=[0]))                   # (1, 3, 1)
+    else:
+        inits += [nh.from_array(np.array([0], np.int64), "ax0"), nh.from_array(np.array([1], np.int64), "ax1")]
+        nodes.append(h.make_node("Squeeze", ["k", "ax0"], ["ks"]))
+        nodes.append(h.make_node("ReduceSum", ["ks", "ax1"], ["kr"], keepdims=0))
+        nodes.append(h.make_node("Unsqueeze", ["kr", "ax0"], ["ku"]))
+    nodes.append(h.make_node("Add", ["x", "ku"], ["z"]))                                   # x: (2, 3, 1) + (1, 3, 1)
+    g = h.make_graph(nodes, gname, [h.make_tensor_value_info("x", T.FLOAT, [2, 3, 1])], [h.make_tensor_value_info("z", T.FLOAT, [2, 3, 1])], inits)
+    m = h.make_model(g, opset_imports=[h.make_opsetid("", ops_v)])
+    m.ir_version = 7 if ops_v < 13 else 8
+    return m
+
+
 
 
 def _wrap_if(nodes, inits, out_vi, cond_name, where, other_nodes, prefix):
@@ -1406,6 +1443,26 @@ def family_models(ctx):
                 m.ir_version = 6
                 fd = [dict({"x": f32(2, 3, lo=-3, hi=3)}, **({"cond": np.array(c)} if use == "branch" else {})) for c in (True, False)]
                 out.append((f"old_opset{ops_v}_dropout_ratio{ratio}_mask_{use}", m.SerializeToString(), fd, ["optimize", "rewrite", "optimize_ir_i1_noinf"], True))
+    # ---- constant sub-expressions of operators whose attributes became inputs at opset 13 (Squeeze / Unsqueeze / ReduceSum axes), in
+    #      the attribute form (opset 11, 12) and the input form (opset 13, 18); each is optimized alone and after a PRIMER model of
+    #      the other form went through the same entry point in the same process (the folder's evaluators are per opset version)
+    for ops_v, primer_v in ((11, 13), (12, 18), (13, 11), (18, 12), (11, 12)):
+        gname = f"axes_{ops_v}_after_{primer_v}"
+        m = axes_model(ops_v, gname)
+        fd = [{"x": f32(2, 3, 1, lo=-3, hi=3)}]
+        out.append((f"fold_axes_opset{ops_v}_primer{primer_v}", m.SerializeToString(), fd,
+                    ["after_primer:optimize", "after_primer:fold_constants_ir_inf_shouldfold", "optimize", "after_primer:optimize_ir_i1_noinf"], True))
+    # ---- UNNAMED dynamic dims (no dim_param, no dim_value) on the data tensor and on the tensor whose Shape is the target: two
+    #      unknown dims are not known to be equal, so Reshape(x, Shape(y)) / Expand(x, Shape(y)) must stay
+    for opname, xs, ys in (("Reshape", (3, 4), (2, 6)), ("Expand", (1, 4), (3, 4)), ("Reshape", (2, 6), (2, 6))):
+        nodes = [h.make_node("Shape", ["y"], ["sy"]), h.make_node(opname, ["x", "sy"], ["r"]), h.make_node("Neg", ["r"], ["z"])]
+        g = h.make_graph(nodes, f"unnamed_{opname}", [h.make_tensor_value_info("x", T.FLOAT, [None, None]), h.make_tensor_value_info("y", T.FLOAT, [None, None])],
+                         [h.make_tensor_value_info("z", T.FLOAT, [None, None])])
+        m = h.make_model(g, opset_imports=[h.make_opsetid("", 18)])
+        m.ir_version = 8
+        fd = [{"x": f32(*xs, lo=-3, hi=3), "y": f32(*ys, lo=-3, hi=3)}, {"x": f32(*ys, lo=-3, hi=3), "y": f32(*ys, lo=-3, hi=3)}]
+        out.append((f"unnamed_dims_{opname}_{xs[0]}x{xs[1]}_to_{ys[0]}x{ys[1]}", m.SerializeToString(), fd,
+                    ["optimize", "optimize_ir_i1_noinf", "fold_constants_ir_inf_shouldfold", "fold_constants"], True))
     # ---- models with symbolic dims, judged at several concrete bindings (feeds of different shapes):
     #      ScatterND over a Range built from Shape<start=s>(data) - a full overwrite only when s = 0 and the symbols agree
     for start in (0, 1):
